@@ -35,7 +35,7 @@ PROFILES = [
 
 
 def budget(tier):
-    return dict(examples=200, seconds=40) if tier == "quick" else dict(examples=2000, seconds=300)
+    return dict(examples=200, seconds=40) if tier == "quick" else dict(examples=1200, seconds=300)
 
 
 @st.composite
